@@ -146,6 +146,7 @@ func writeEvidence(prop, tier string, seed int64, reports []*harnessReport, solv
 	if scan != nil {
 		cov["map_range_sites"] = scan.Sites
 		cov["map_range_sites_uncovered"] = scan.Uncovered
+		cov["run_dependent_value_sources"] = scan.RunDependent
 		cov["goroutine_start_sites"] = scan.GoSites
 		cov["goroutine_start_sites_uncovered"] = scan.GoUncovered
 		cov["map_range_table_stale_entries"] = scan.Stale
